@@ -167,3 +167,29 @@ func dbgLex(c *Ctx, r *Report) {
 	}
 	r.ok("dbg", "x", "")
 }
+
+func init() { register("DBGSER", "other", dbgSER) }
+
+func dbgSER(c *Ctx, r *Report) {
+	_, dfd := c.find("Prog.Dump")
+	_, lfd := c.find("Prog.Load")
+	if dfd == nil || lfd == nil {
+		fmt.Println("no Dump/Load")
+		return
+	}
+	d, dp := c.dumpEvents(dfd)
+	fmt.Println("DUMP ", seqString(d))
+	for _, p := range dp {
+		fmt.Println("   PROBLEM", p)
+	}
+	d2, _ := c.dumpEventsAST(dfd)
+	fmt.Println("DUMP0", seqString(d2))
+	l, lp := c.loadEvents(lfd)
+	fmt.Println("LOAD ", seqString(l))
+	for _, p := range lp {
+		fmt.Println("   PROBLEM", p)
+	}
+	l2, _ := c.loadEventsAST(lfd)
+	fmt.Println("LOAD0", seqString(l2))
+	r.ok("dbg", "x", "")
+}
